@@ -85,7 +85,12 @@ FAILS = [
     ("unqualified_create_schema", "CREATE SCHEMA NEW_S", "ctx1", "no-context"),
     ("undefined_variable", "SELECT $NO_SUCH_VARIABLE", "var", "undefined-variable"),
     ("undefined_variable_in_dml", f"INSERT INTO {T} (ID) VALUES ($NO_SUCH_VARIABLE)", "var", "undefined-variable"),
+    ("undefined_variable_between_bound_strings", "SELECT %s AS A, $NO_SUCH_VARIABLE AS V, %s AS B", "var", "undefined-variable"),
+    ("undefined_variable_after_comment", "SELECT /* it's */ $NO_SUCH_VARIABLE -- isn't it\n", "var", "undefined-variable"),
+    ("undefined_variable_in_update_bound", f"UPDATE {T} SET NOTE = %s WHERE NOTE = $NO_SUCH_VARIABLE OR NOTE = %s", "var", "undefined-variable"),
 ]
+# bound parameters of the failing statements that have placeholders (strings with quotes in them)
+PARAMS = {"undefined_variable_between_bound_strings": ("a'b", "c'd"), "undefined_variable_in_update_bound": ("it's", "x\\'y")}
 FOLLOW = [
     "INSERT INTO DB1.S1.ORDERS (ID) VALUES ({n})",
     "SELECT COUNT(*) FROM DB1.S1.ORDERS",
@@ -205,7 +210,7 @@ def run_case(case: dict, env: core.Env) -> None:
                 cur.execute("INSERT INTO DB1.S1.ORDERS VALUES (50, 'uncommitted')")
         cur = conn.cursor()
         before = (core.snapshot(fs), core.session_state(conn), _own_view(conn), core.engine_context(conn))
-        out = core.run_stmt(cur, sql)
+        out = core.run_stmt(cur, sql, PARAMS.get(name))
         env.count("cmp_exception")
         if out["ok"]:
             env.witness(f"C07/statement-succeeded/{name}", f"{sql} (ctx={ctx}) succeeded: {out.get('rows')}")
@@ -287,7 +292,7 @@ def _nop_after_failure(case: dict, env: core.Env) -> None:
         cur.execute("CREATE TABLE PEOPLE (ID INT)")
         cur.execute("CREATE VIEW ORDERS_V AS SELECT ID FROM ORDERS")
         name, sql, req, cause = FAILS[case["fail"]]
-        out = core.run_stmt(cur, sql)
+        out = core.run_stmt(cur, sql, PARAMS.get(name))
         if out["ok"]:
             return
         env.count("cmp_sqlstate_lifecycle")
